@@ -150,6 +150,10 @@ inductive Step where
   | tryMap | unresult
   /-- debug taps (testing/debug.rs): identity operators with the trait-default flags -/
   | debugInspect | debugCount | debugSample (n : Nat)
+  /-- `apply_transform(Arc<dyn DynOp>)` (collection.rs) with a user-written operator that overrides no flag -/
+  | customOp (n : Int)
+  /-- `map_with_side_map` (helpers/side_inputs.rs) over the side map `{0 ↦ 10, 1 ↦ 20}` -/
+  | mapSideMap
   | join (k : JoinKind) (rsrc : List Val) (rsteps : List Step)
 
 def unkeyF (r : Val) : Val := r                          -- `(k, v)` ↦ `P(k, v)`: the same `Val`
@@ -164,6 +168,12 @@ def mapSideF (side : List Int) (x : Val) : Val := .int (x.toInt + sideSum side)
 def filterSideF (side : List Int) (x : Val) : Bool := side.contains (x.toInt % 5)
 /-- `Ok(x)` for even `x`, `Err("odd")` otherwise; a `Result` travels as `("ok", v)` / `("err", msg)` -/
 def tryF (x : Val) : Val := if x.toInt % 2 == 0 then .pair (.str "ok") x else .pair (.str "err") (.str "odd")
+def customF (n : Int) (x : Val) : Val := .int (x.toInt + n)
+/-- the user operator of `apply_transform`: trait-default flags and cost -/
+def customDynOp (n : Int) : DynOp Part := withFlags Generated.bareOpFlags (List.map (customF n))
+/-- lookup in the side map `{0 ↦ 10, 1 ↦ 20}` by `x mod 3`, absent ↦ 0 -/
+def sideMapF (x : Val) : Val :=
+  .int (x.toInt + (if x.toInt % 3 == 0 then 10 else if x.toInt % 3 == 1 then 20 else 0))
 /-- a debug tap passes its partition through unchanged -/
 def debugOp : DynOp Part := withFlags Generated.bareOpFlags (List.map (fun x => x))
 
@@ -217,6 +227,8 @@ def Step.apply (acc : List (Node Part)) : Step → List (Node Part)
   | .debugInspect => acc ++ [st debugOp]
   | .debugCount => acc ++ [st debugOp]
   | .debugSample _ => acc ++ [st debugOp]
+  | .customOp n => acc ++ [st (customDynOp n)]
+  | .mapSideMap => acc ++ [st (mapOp sideMapF)]
   | .join k rsrc rsteps =>
       -- `chain_from` snapshots both lineages literally; the outer chain restarts at a dummy source;
       -- the harness then maps the joined rows `(k, (v, w))` back to `(V, V)` rows
